@@ -51,6 +51,49 @@ def char_max(problems):
         return None
 
 
+def compiler_macros(problems):
+    try:
+        cxx = os.environ.get('VERIF_CXX', 'g++')
+        out = subprocess.run([cxx, '-dM', '-E', '-x', 'c++', '-'], input='', stdout=subprocess.PIPE, stderr=subprocess.PIPE,
+                             text=True, timeout=60).stdout
+        return dict(m.groups() for m in re.finditer(r'#define (\w+) (.*)', out))
+    except Exception as e:  # noqa
+        problems.append('cannot run the harness compiler for its predefined macros: %r' % (e,))
+        return {}
+
+
+def _lit(v):
+    return int(re.sub(r'[uUlL]+$', '', v.strip()), 0)
+
+
+def int_type_max(spelling, macros):
+    """Largest value of an integer type spelled as in the typedef of key_type, on the compiler that builds the harness; None = not a type the translator knows."""
+    w = spelling.replace('std::', ' ').split()
+    w = [x for x in w if x not in ('const', 'int') or x == 'int' and len([y for y in w if y != 'const']) == 1]
+    t = ' '.join(sorted(w))
+    try:
+        smax = {'char': '__SCHAR_MAX__', 'short': '__SHRT_MAX__', 'int': '__INT_MAX__', 'long': '__LONG_MAX__', 'long long': '__LONG_LONG_MAX__'}
+        named = {'size_t': '__SIZE_MAX__', 'uint8_t': '__UINT8_MAX__', 'uint16_t': '__UINT16_MAX__', 'uint32_t': '__UINT32_MAX__', 'uint64_t': '__UINT64_MAX__',
+                 'uintptr_t': '__UINTPTR_MAX__', 'int8_t': '__INT8_MAX__', 'int16_t': '__INT16_MAX__', 'int32_t': '__INT32_MAX__', 'int64_t': '__INT64_MAX__',
+                 'ptrdiff_t': '__PTRDIFF_MAX__'}
+        if t in named:
+            return _lit(macros[named[t]])
+        if t == 'unsigned':
+            return 2 * _lit(macros['__INT_MAX__']) + 1
+        if t == 'signed':
+            return _lit(macros['__INT_MAX__'])
+        uns = 'unsigned' in w
+        base = ' '.join(x for x in w if x not in ('unsigned', 'signed'))
+        if base == 'char' and not uns and 'signed' not in w:
+            return None          # plain char as an option number: not a type the translator wants to judge
+        if base in smax:
+            m = _lit(macros[smax[base]])
+            return 2 * m + 1 if uns else m
+    except (KeyError, ValueError):
+        return None
+    return None
+
+
 def generate(repo):
     problems, C, L = [], {}, []
     add = L.append
@@ -138,6 +181,25 @@ def generate(repo):
         m = re.search(r"char\s+sName\[2\]\s*=\s*\{\s*'(.)'\s*,\s*opt->alias\(\)\s*\}", io)
         if not m or ord(m.group(1)) != C.get('DASH', ord(m.group(1))):
             problems.append('anchor not found: insertOption alias key')
+    # the option NUMBER stored in the name index: typedef <type> key_type; std::map<std::string, key_type>; key_type k(options_.size()) / k(option - begin())
+    cls = re.search(r'class\s+OptionContext\s*\{(.*?)\n\};', h, re.S)
+    m = re.search(r'typedef\s+([\w:\s]+?)\s+key_type\s*;', cls.group(1)) if cls else None
+    if not m:
+        problems.append('anchor not found: OptionContext: typedef <type> key_type')
+    else:
+        ty = ' '.join(m.group(1).split())
+        mx = int_type_max(ty, compiler_macros(problems))
+        if mx is None:
+            problems.append('OptionContext::key_type: type %r is not an integer type the translator knows (the model needs the range of the option number stored in the index)' % ty)
+        else:
+            const('key_max', mx, 'OptionContext: typedef %s key_type  [largest option number an index entry can hold; limits of the harness compiler]' % ty)
+        if not re.search(r'typedef\s+std::map\s*<\s*std::string\s*,\s*key_type\s*>\s*Name2Key\s*;', cls.group(1)):
+            problems.append('anchor not found: OptionContext: typedef std::map<std::string, key_type> Name2Key')
+        if io is not None and not re.search(r'key_type\s+k\s*\(\s*options_\.size\(\)\s*\)', io):
+            problems.append('anchor not found: insertOption: key_type k(options_.size())')
+        aa = _body(cpp, r'OptionContext&\s+OptionContext::addAlias\s*\(')
+        if aa is None or not re.search(r'key_type\s+k\s*\(\s*option\s*-\s*begin\(\)\s*\)', aa):
+            problems.append('anchor not found: addAlias: key_type k(option - begin())')
     return '\n'.join(L) + '\n', C, problems
 
 
